@@ -6,6 +6,7 @@ within step and memory bounds derived from the uncorrupted corpus of the run.
 from __future__ import annotations
 
 import resource
+import time
 import sys
 import tracemalloc
 
@@ -146,6 +147,9 @@ class Corrupt(Machine):
                 ops.append({"kind": "rot_cli", "i": len(ops), "env": f"env{e}", "gen": s.u64() % (1 << 48),
                             "fmt": s.choice(["yaml", "json"]), "hier": s.chance(0.5),
                             "to_stdout": s.chance(0.2)})
+        if swarm["fast_stack"] and s.chance(0.35):
+            ops.append({"kind": "deep_hier", "i": len(ops), "form": s.choice(["stdout", "stdout", "yaml", "json"]),
+                        "depths": [4, 8, 16] if tier == "quick" else [4, 8, 16, 32]})
         return {"seed": seed, "swarm": swarm, "ops": ops, "faults": []}
 
     def simplify(self, plan, target):
@@ -187,6 +191,59 @@ class Corrupt(Machine):
             return self._rot_cli(host, model, op)
         if k == "growth_scaling":
             return self._growth_scaling(host, model, op)
+        if k == "deep_hier":
+            return self._deep_hier(host, model, op)
+        return []
+
+    def _deep_hier(self, host, model, op):
+        """A *valid* input that is deep: envelope in envelope in envelope.  `parse --parse-hierarchy` must stay proportional
+        to it in every output form (a description that repeats each level once per reference doubles per level)."""
+        ex = model["_extra"]
+        prev, results = None, []
+        depth_built = -1
+        model["_last_outcome"] = "ok"
+        model["_abstract"] = ("deep_hier", op["form"])
+        for d in op["depths"]:
+            while depth_built < d:
+                depth_built += 1
+                desc = gen.minimal_envelope(seq=depth_built + 1, deps={"#dep": prev} if prev else None)
+                rel = f"deep{op['i']}_{depth_built}.suit"
+                oc = world.create(host, desc, rel, fmt="json", entry="cli")
+                if not oc.ok:
+                    model["_abstract"] = ("deep_hier", "create-failed")
+                    return []
+                prev = host.path(rel)
+            in_rel = f"deep{op['i']}_{d}.suit"
+            n_in = len(host.read(in_rel))
+            out_rel = None if op["form"] == "stdout" else f"deep{op['i']}.{op['form']}"
+            t0 = time.process_time()
+            o = world.parse(host, in_rel, out_rel, fmt=op["form"] if out_rel else "yaml", hier=True, entry="cli", timeout=30.0)
+            cpu = time.process_time() - t0
+            ex["deep_hierarchy_parses"] = ex.get("deep_hierarchy_parses", 0) + 1
+            if o.cls == "hang":
+                return [violation("C17", "step-bound", op["i"],
+                                  f"parse --parse-hierarchy ({op['form']}) of a valid {n_in}-byte envelope nested {d} deep did "
+                                  f"not finish in 30 s", cls="steps")]
+            if not o.ok:
+                return [violation("C17", "valid-operation-failed", op["i"],
+                                  f"parse --parse-hierarchy ({op['form']}) of a valid envelope nested {d} deep failed: {o.cls} "
+                                  f"{o.exc_type}: {o.exc_msg}", cls="unexpected-failure", site=o.site)]
+            n_out = len(o.stdout or "") if out_rel is None else len(host.read(out_rel) or b"")
+            results.append((d, n_in, n_out, cpu))
+            ex["max_hier_output_per_input_byte"] = max(ex.get("max_hier_output_per_input_byte", 0), int(n_out / max(1, n_in)))
+            # measured on the unchanged tree: 7.5 / 9.3 / 12.8 output bytes per input byte at depth 4 / 8 / 16 (YAML
+            # indentation grows with the depth) and x2.3 - x2.6 per doubling of the depth
+            if n_out > 200 * n_in + 4096:
+                return [violation("C17", "memory-bound", op["i"],
+                                  f"parse --parse-hierarchy ({op['form']}) wrote {n_out} bytes for a valid {n_in}-byte envelope "
+                                  f"nested {d} deep ({n_out // max(1, n_in)} per input byte)", cls="memory")]
+            if len(results) >= 2:
+                (d0, i0, o0, _), (d1, i1, o1, _) = results[-2], results[-1]
+                if o0 > 0 and o1 / o0 > 3.0 * (i1 / i0) * (d1 / d0) and o1 > 50000:
+                    return [violation("C17", "memory-bound", op["i"],
+                                      f"parse --parse-hierarchy ({op['form']}): output grew x{o1 / o0:.1f} ({o0} -> {o1} bytes) when "
+                                      f"the nesting went from {d0} to {d1} and the input from {i0} to {i1} bytes", cls="memory")]
+        model["_nontrivial"] = True
         return []
 
     def _make_env(self, host, model, op):
